@@ -126,19 +126,75 @@ func xmlScanHostile(data []byte, mode int) (objs []osm.Object, err error, pan st
 }
 
 func xmlScanFrom(rd io.Reader) (objs []osm.Object, err error, pan string) {
-	pan = xmlGuard(func() {
+	out := xmlScanStyled(rd, 0, 0)
+	return out.Objs, out.Err, out.Pan
+}
+
+// xmlConsumerStyles names the ways the harness drives the scanner. All of them are legal uses
+// of the bufio.Scanner-like API: read-only accessors (Err, Object) may be called at any time
+// and any number of times, Object need not be called, Scan may be called again after it
+// returned false. None of this may change what is delivered.
+var xmlConsumerStyles = []string{"canonical", "err-after-every-scan", "err-once-after-kth-scan", "object-twice", "object-skipped-for-some", "scan-again-after-false"}
+
+// xmlScanOut is what one scan delivered.
+type xmlScanOut struct {
+	Objs    []osm.Object
+	Skipped []bool   // Object() was deliberately not called for this position (Objs[i] is nil)
+	Proto   []string // call-protocol observations that contradict the API's contract
+	Err     error
+	Pan     string
+}
+
+// xmlScanStyled runs the scanner over rd with the given consumer style (index of
+// xmlConsumerStyles); k parameterises the style.
+func xmlScanStyled(rd io.Reader, style, k int) (out xmlScanOut) {
+	out.Pan = xmlGuard(func() {
 		s := osmxml.New(context.Background(), rd)
 		defer s.Close()
+		n := 0
 		for s.Scan() {
-			objs = append(objs, s.Object())
-			if len(objs) > 1_000_000 {
-				err = fmt.Errorf("harness: scanner delivered more than 1e6 objects")
+			var o osm.Object
+			skip := false
+			switch style {
+			case 3:
+				o = s.Object()
+				if o2 := s.Object(); eq.Dump(o) != eq.Dump(o2) {
+					out.Proto = append(out.Proto, fmt.Sprintf("Object() called twice after the %d-th Scan returned different objects", n+1))
+				}
+			case 4:
+				if n%3 == k%3 {
+					skip = true
+				} else {
+					o = s.Object()
+				}
+			default:
+				o = s.Object()
+			}
+			out.Objs = append(out.Objs, o)
+			out.Skipped = append(out.Skipped, skip)
+			n++
+			if style == 1 || (style == 2 && n == 1+k%4) {
+				_ = s.Err() // a look at the error state in mid-scan; its value is not judged
+			}
+			if n > 1_000_000 {
+				out.Err = fmt.Errorf("harness: scanner delivered more than 1e6 objects")
 				return
 			}
 		}
-		err = s.Err()
+		out.Err = s.Err()
+		if style == 5 {
+			for i := 0; i < 2; i++ {
+				if s.Scan() {
+					out.Proto = append(out.Proto, "Scan returned true again after it had returned false")
+					break
+				}
+			}
+			if e2 := s.Err(); (e2 == nil) != (out.Err == nil) {
+				out.Proto = append(out.Proto, fmt.Sprintf("Err changed from %v to %v by calling Scan after the end", out.Err, e2))
+			}
+		}
 	})
-	return objs, err, pan
+	return out
 }
 
 var (
@@ -368,4 +424,13 @@ func xmlMerge(dst, src *fw.Result) {
 	for _, v := range src.Violations {
 		dst.Violate(v.Key, v.What, v.Detail)
 	}
+}
+
+// xmlWith returns a copy of m with one more entry.
+func xmlWith(m map[string]any, k string, v any) map[string]any {
+	out := map[string]any{k: v}
+	for kk, vv := range m {
+		out[kk] = vv
+	}
+	return out
 }
